@@ -2127,6 +2127,190 @@ def r03f_depth(cg, P, rep):
     col.issue(rep, DEPTH_RULE)
 
 
+FOLD_RULE = 'R03.16'
+U_PARSE = 'parse.c'
+# node kinds whose constant-ness involves no evaluation that could have a side effect: literals and the address computations of a constant lvalue
+FOLD_PURE_LEAVES = ('ND_NUM', 'ND_ADDR', 'ND_MEMBER', 'ND_DEREF', 'ND_VAR', 'ND_LABEL_VAL', 'ND_NULL_EXPR')
+CONST_PREDICATE = 'is_const_expr'
+
+
+def _fold_family(pu, cgr, acceptors):
+    """the constant folders of parse.c, found structurally: functions of a `Node *` (first parameter) with an arithmetic result that reach eval2
+    (eval, eval2, eval_rval, eval_double, eval_truth, ...), the constant-ness predicates excluded. Returns (family incl. predicates, folders)"""
+    def reach(f, seen):
+        for g in cgr.get(f, ()):
+            if g in pu.functions and g not in seen:
+                seen.add(g); reach(g, seen)
+        return seen
+    fam = set()
+    for f, fd in pu.functions.items():
+        ps = pu.params(f)
+        if not ps or (ps[0].type or '').replace(' ', '') != 'Node*':
+            continue
+        rt = (fd.type or '').split('(')[0].strip()
+        if '*' in rt or rt == 'void':
+            continue
+        if f == 'eval2' or 'eval2' in reach(f, set()):
+            fam.add(f)
+    return fam, fam - set(acceptors)
+
+
+def _fold_args(pu, f):
+    def mk(ctx):
+        out = []
+        for p in pu.params(f):
+            t = (p.type or '').replace(' ', '')
+            if t.endswith('**'):
+                from ..interp import _Ref, VarPlace
+                out.append(_Ref(VarPlace({p.name: None}, p.name)))
+            elif t.endswith('*'):
+                out.append(Obj(t[:-1].replace('struct', '').replace('const', ''), lazy=True, label=p.name))
+            else:
+                out.append(Sym(p.name, p.type))
+        return out
+    return mk
+
+
+def _view_truth(ctx, r):
+    """how the path has decided the boolean result r of an opaque call: True / False / None (not decided)"""
+    if isinstance(r, int):
+        return r != 0
+    if isinstance(r, View):
+        try:
+            vals = [r.proj(c) for c in r.cell.cands]
+        except Exception:
+            return None
+        if vals and all(isinstance(v, int) for v in vals):
+            if all(v != 0 for v in vals):
+                return True
+            if all(v == 0 for v in vals):
+                return False
+        return None
+    return _cmp_truth(ctx, r)
+
+
+def r03g_fold(P, rep):
+    """no evaluation is dropped by constant folding. (1) the constant-ness predicate requires every operand that an execution of the operator always
+    evaluates to be constant itself (C07 R07.5's obligations, which state this clause), and accepts no kind whose evaluation is a side effect;
+    (2) wherever the parser chooses between folding an expression tree it has parsed and keeping it for run-time evaluation, it folds only under
+    the predicate's `true`."""
+    from ..report import Report, reissue
+    from ..interp import vkey
+    from . import c07
+    rep.rule(FOLD_RULE, 'every operand the abstract machine evaluates is evaluated: an expression tree is replaced by its folded value (and so never executed) only if the constant-ness predicate has '
+                        'answered true for it on that path, and the predicate answers true for an operator only if every operand that a run-time evaluation of the operator always evaluates '
+                        '(both operands of a binary operator and of the comma operator, the operand of a unary operator / cast, the left operand of && ||, the condition of ?:) is itself required '
+                        'constant - a constant expression has no side effect, so nothing is lost (`int a[(f(), 3)];` is a VLA whose size expression calls f each time the declaration is reached)', floor=18)
+    pu = P.unit(U_PARSE)
+    if CONST_PREDICATE not in pu.functions:
+        raise AnalysisBroken('parse.c: %s vanished' % CONST_PREDICATE)
+    F = c07.Folder(P)
+    # (1) the predicate: C07's rule, re-used
+    sub = Report('C07')
+    c07.r075(F, sub)
+    n = reissue(rep, FOLD_RULE, sub, 'the operand and its side effects are never executed: ',
+                keep=lambda o: o['key'].startswith('R07.5:') and '/operands-evaluated-at-run-time-required-constant' in o['key'])
+    if n < 10:
+        rep.undecided(FOLD_RULE, '%s:%s:operators' % (U_PARSE, CONST_PREDICATE), 'only %d operator kinds of the constant-ness predicate were judged' % n,
+                      where='%s:%d' % (U_PARSE, pu.fn(CONST_PREDICATE).line))
+    for kind in F.kinds:
+        if kind in c07.RUN_TIME_OPERANDS:
+            continue
+        try:
+            acc = bool(c07._accepting(F, CONST_PREDICATE, kind))
+        except Exception as e:
+            rep.undecided(FOLD_RULE, '%s:%s:%s/kind-without-side-effect' % (U_PARSE, CONST_PREDICATE, kind), 'cannot summarise: %s' % e)
+            continue
+        if acc:
+            rep.ob(FOLD_RULE, '%s:%s:%s/kind-without-side-effect' % (U_PARSE, CONST_PREDICATE, kind), kind in FOLD_PURE_LEAVES,
+                   '%s answers true for a %s node: evaluating it is (or contains) a side effect / a statement that the abstract machine executes each time the expression is reached; '
+                   'a tree judged constant is folded and never executed' % (CONST_PREDICATE, kind), where='%s:%d' % (U_PARSE, c07.line_of_kind(pu, CONST_PREDICATE, F.E[kind])))
+    # (2) the consumers: functions outside the folder family that fold a tree
+    cgr = _callgraph(pu)
+    fam, folders = _fold_family(pu, cgr, F.acceptors)
+    if 'eval2' not in folders or len(folders) < 3:
+        raise AnalysisBroken('parse.c: the constant folders around eval2 are not recognised')
+    node_fns = set(f for f, fd in pu.functions.items() if (fd.type or '').split('(')[0].strip().replace(' ', '') == 'Node*')
+    folders = set(folders)
+    derived = {}            # helper that folds its own Node* parameter without asking the predicate itself: its callers fold
+    choosers = 0
+    done = set()
+    for _round in range(4):
+        grew = False
+        for f in sorted(pu.functions):
+            if f in fam or f in folders or f in done or not (cgr.get(f, set()) & folders):
+                continue
+            done.add(f)
+            opaque = sorted(g for g in cgr.get(f, ()) if g != f and g in pu.functions)
+            try:
+                it = Interp(P, pu, {'opaque': opaque, 'loop_limit': 1})
+                res = it.explore(f, _fold_args(pu, f), max_paths=3000)
+            except AnalysisBroken as e:
+                rep.undecided(FOLD_RULE, '%s:%s:fold-or-evaluate' % (U_PARSE, f), 'cannot explore: %s' % e, where='%s:%d' % (U_PARSE, pu.fn(f).line))
+                continue
+            except Exception as e:
+                rep.undecided(FOLD_RULE, '%s:%s:fold-or-evaluate' % (U_PARSE, f), 'cannot explore: %s: %s' % (type(e).__name__, e), where='%s:%d' % (U_PARSE, pu.fn(f).line))
+                continue
+            params = [p.name for p in pu.params(f) if (p.type or '').replace(' ', '') == 'Node*']
+            folds = {}      # (folder, origin) -> [ok per path, line]
+            kept = set()    # origins (sub-parser names) whose tree survives some returning path unfolded
+            for ctx, out in res:
+                origin = {}
+                preds = {}
+                guarded = set()
+                folded_here = set()
+                for e in ctx.events:
+                    if e[0] != 'call':
+                        continue
+                    name, args, line, r = e[1], e[2], e[3], e[4]
+                    if name in node_fns and name not in folders:
+                        origin[vkey(r)] = name
+                    if not args:
+                        continue
+                    k = vkey(args[0])
+                    if name == CONST_PREDICATE:
+                        if _view_truth(ctx, r) is True:
+                            guarded.add(k)
+                        preds.setdefault(k, r)
+                    elif name in folders:
+                        a0 = args[0]
+                        if k in origin:
+                            src = origin[k]
+                        elif isinstance(a0, Obj) and getattr(a0, 'label', None) in params:
+                            src = 'parameter ' + a0.label
+                        else:
+                            continue        # a tree stored earlier (an initializer of an object of static storage duration): a constant expression by the grammar
+                        # only an answer obtained before the fold counts; the path may have decided it later than the call (`c = pred(x); ... if (c)`), so its
+                        # truth is read at the end of the path
+                        ok = k in guarded or (k in preds and _view_truth(ctx, preds[k]) is True)
+                        rec = folds.setdefault((name, src), [True, line])
+                        rec[0] = rec[0] and ok
+                        folded_here.add(k)
+                if out[0] == 'ret':
+                    for k, src in origin.items():
+                        if k not in folded_here:
+                            kept.add(src)
+            for (folder, src), (ok, line) in sorted(folds.items()):
+                if src.startswith('parameter '):
+                    if not ok and f not in folders:
+                        folders.add(f); derived[f] = folder; grew = True
+                    continue
+                if src not in kept:
+                    continue            # the function folds whatever it has parsed on every path: a constant-expression of the grammar (const_expr)
+                choosers += 1
+                via = ' (which hands it to %s)' % derived[folder] if folder in derived else ''
+                rep.ob(FOLD_RULE, '%s:%s:%s-of-%s-result/only-when-judged-constant' % (U_PARSE, f, folder, src), ok,
+                       '%s() keeps the tree parsed by %s() for run-time evaluation on some paths and folds it with %s()%s on others, and a folding path has not been answered true by %s() for that tree: '
+                       'an expression with a side effect is replaced by a value and never executed (an array bound `(f(), 3)` / `n++ ? 2 : 2` makes a fixed-size array and f / n++ is lost)'
+                       % (f, src, folder, via, CONST_PREDICATE), where='%s:%d' % (U_PARSE, line))
+        if not grew:
+            break
+        done -= set(g for g in done if cgr.get(g, set()) & set(derived))
+    if not choosers:
+        rep.undecided(FOLD_RULE, '%s:fold-or-evaluate' % U_PARSE, 'no function that chooses between folding a parsed expression and keeping it for run-time evaluation (array bound: fixed size vs. VLA) was recognised',
+                      where='%s:%d' % (U_PARSE, pu.fn(CONST_PREDICATE).line))
+
+
 def run(P, rep, tier):
     cg = wrap(CG(P))
     rep.explanation = ('Control skeletons: gen_stmt/gen_expr are abstractly interpreted per statement / short-circuit form, the emitted templates are executed by the '
@@ -2160,6 +2344,7 @@ def run(P, rep, tier):
     r038(P, rep)
     r03a(P, rep)
     r036(P, rep, r03c(P, rep))
+    r03g_fold(P, rep)
     # every statement form leaves the machine stack and the x87 register stack as it found them: a loop whose increment or condition
     # leaks a register-stack slot per iteration stops early (its condition turns NaN after eight iterations). C20's gen_stmt rule, re-used.
     # (c12 runs c03.run into a sub-report and c20 into another: guard against re-entrance through c20 -> ... is not needed, c20 imports only c04)
